@@ -6,7 +6,9 @@ package main
 // term of the function's result type; "the rest of the enclosing block" is a named thunk (`let kN := fun _ => …`),
 // a range loop is `forRange l (fun x next => body) after` (Model/RouteBase.lean).
 // Restrictions (violations => error => translation-unsupported => broken tie, never a wrong translation):
-//   * an assignment `x = e` is accepted only if `x` was declared in the same block (no mutation across blocks/loops),
+//   * a variable assigned in a block deeper than its declaration (or across loop iterations) is a *mutable* variable:
+//     every continuation takes the mutable variables in scope as parameters (their types come from `Types`), a loop over
+//     them is `forRangeS l (fun x state next => …) state after`; other assignments `x = e` must be in the declaring block,
 //   * logging statements (`if log.… { … }`, `log.…(…)`) are skipped,
 //   * every call must be listed in `Calls`/`Calls2`, every free name in `Names`.
 
@@ -29,6 +31,9 @@ type CPS struct {
 	Calls  map[string]func(args []string) string
 	Calls2 map[string]call2
 	Ret    func(e []ast.Expr) (string, error)  // renders `return …`
+	Types  map[string]string                   // Lean types of mutable / var-declared variables
+	mut    map[string]bool                     // variables assigned outside their declaring block
+	order  []string                            // declared variables, in declaration order (innermost last)
 	n      int
 	next   []string
 	brk    []string
@@ -108,7 +113,153 @@ func (c *CPS) pop() {
 	for n := range top {
 		c.locals[n]--
 	}
+	keep := c.order[:0:0]
+	for _, n := range c.order {
+		if !top[n] || c.locals[n] > 0 {
+			keep = append(keep, n)
+		}
+	}
+	c.order = keep
 	c.scope = c.scope[:len(c.scope)-1]
+}
+
+// mutInScope lists the mutable variables that are declared at this point, in declaration order.
+func (c *CPS) mutInScope() []string {
+	var out []string
+	seen := map[string]bool{}
+	for _, n := range c.order {
+		if c.mut[n] && c.isLocal(n) && !seen[n] {
+			seen[n] = true
+			out = append(out, n)
+		}
+	}
+	return out
+}
+
+func (c *CPS) binders(vs []string) (string, error) {
+	if len(vs) == 0 {
+		return "(_ : Unit)", nil
+	}
+	var p []string
+	for _, v := range vs {
+		t, ok := c.Types[v]
+		if !ok {
+			return "", fmt.Errorf("no Lean type configured for mutable variable %s", v)
+		}
+		p = append(p, "("+leanName(v)+" : "+t+")")
+	}
+	return strings.Join(p, " "), nil
+}
+
+func callArgs(vs []string) string {
+	if len(vs) == 0 {
+		return "()"
+	}
+	var p []string
+	for _, v := range vs {
+		p = append(p, leanName(v))
+	}
+	return strings.Join(p, " ")
+}
+
+func tuple(vs []string) string {
+	var p []string
+	for _, v := range vs {
+		p = append(p, leanName(v))
+	}
+	if len(p) == 1 {
+		return p[0]
+	}
+	return "(" + strings.Join(p, ", ") + ")"
+}
+
+// findMutables: names assigned (=, op=, ++/--) in a block other than the one declaring them.
+func findMutables(fd *ast.FuncDecl) (map[string]bool, error) {
+	mut := map[string]bool{}
+	var scopes []map[string]bool
+	declare := func(n string) {
+		if n != "_" {
+			scopes[len(scopes)-1][n] = true
+		}
+	}
+	assigned := func(n string) {
+		if n == "_" {
+			return
+		}
+		for i := len(scopes) - 1; i >= 0; i-- {
+			if scopes[i][n] {
+				if i != len(scopes)-1 {
+					mut[n] = true
+				}
+				return
+			}
+		}
+	}
+	var walk func(ss []ast.Stmt)
+	var stmt func(s ast.Stmt)
+	block := func(ss []ast.Stmt) {
+		scopes = append(scopes, map[string]bool{})
+		walk(ss)
+		scopes = scopes[:len(scopes)-1]
+	}
+	stmt = func(s ast.Stmt) {
+		switch x := s.(type) {
+		case *ast.AssignStmt:
+			for _, l := range x.Lhs {
+				if id, ok := l.(*ast.Ident); ok {
+					if x.Tok == token.DEFINE {
+						declare(id.Name)
+					} else {
+						assigned(id.Name)
+					}
+				}
+			}
+		case *ast.IncDecStmt:
+			if id, ok := x.X.(*ast.Ident); ok {
+				assigned(id.Name)
+			}
+		case *ast.DeclStmt:
+			if gd, ok := x.Decl.(*ast.GenDecl); ok {
+				for _, sp := range gd.Specs {
+					if vs, ok := sp.(*ast.ValueSpec); ok {
+						for _, n := range vs.Names {
+							declare(n.Name)
+						}
+					}
+				}
+			}
+		case *ast.BlockStmt:
+			block(x.List)
+		case *ast.IfStmt:
+			scopes = append(scopes, map[string]bool{})
+			if x.Init != nil {
+				stmt(x.Init)
+			}
+			block(x.Body.List)
+			if x.Else != nil {
+				stmt(x.Else)
+			}
+			scopes = scopes[:len(scopes)-1]
+		case *ast.RangeStmt:
+			scopes = append(scopes, map[string]bool{})
+			if id, ok := x.Key.(*ast.Ident); ok && x.Key != nil {
+				declare(id.Name)
+			}
+			if id, ok := x.Value.(*ast.Ident); ok && x.Value != nil {
+				declare(id.Name)
+			}
+			walk(x.Body.List) // the loop body is the loop's scope: assignments to loop-local names are not cross-block
+			scopes = scopes[:len(scopes)-1]
+		}
+	}
+	walk = func(ss []ast.Stmt) {
+		for _, s := range ss {
+			stmt(s)
+		}
+	}
+	scopes = append(scopes, map[string]bool{})
+	walk(fd.Body.List)
+	return mut, nil
 }
 func (c *CPS) declare(n string) {
 	if n == "_" {
@@ -118,6 +269,7 @@ func (c *CPS) declare(n string) {
 	if !top[n] {
 		top[n] = true
 		c.locals[n]++
+		c.order = append(c.order, n)
 	}
 }
 func (c *CPS) declaredHere(n string) bool { return c.scope[len(c.scope)-1][n] }
@@ -177,7 +329,12 @@ func (c *CPS) ex(e ast.Expr) (string, error) {
 		if n, ok := c.Names[goKey(x)]; ok {
 			return n, nil
 		}
-		return "", fmt.Errorf("unsupported dereference %s", goKey(x))
+		// *p of a pointer the source has tested non-nil (Go panics on nil; the Lean side yields the zero value)
+		inner, err := c.ex(x.X)
+		if err != nil {
+			return "", fmt.Errorf("unsupported dereference %s", goKey(x))
+		}
+		return "(Option.getD " + inner + " default)", nil
 	case *ast.IndexExpr:
 		if n, ok := c.Names[goKey(x)]; ok {
 			return n, nil
@@ -296,14 +453,27 @@ func (c *CPS) args(as []ast.Expr) ([]string, error) {
 	return out, nil
 }
 
+// isLogStmt: statements without effect on the sequential result — logging, and taking / releasing a mutex
+// (`x.mutex.RLock()`, `defer x.mutex.RUnlock()`): skipped by the translation.
 func isLogStmt(s ast.Stmt) bool {
+	isLock := func(ce *ast.CallExpr) bool {
+		k := goKey(ce.Fun)
+		for _, suf := range []string{".RLock", ".RUnlock", ".Lock", ".Unlock"} {
+			if strings.HasSuffix(k, suf) && len(ce.Args) == 0 {
+				return true
+			}
+		}
+		return false
+	}
 	switch x := s.(type) {
 	case *ast.IfStmt:
-		return strings.HasPrefix(condText(x.Cond), "log.")
+		return x.Init == nil && strings.HasPrefix(condText(x.Cond), "log.")
 	case *ast.ExprStmt:
 		if ce, ok := x.X.(*ast.CallExpr); ok {
-			return strings.HasPrefix(goKey(ce.Fun), "log.")
+			return strings.HasPrefix(goKey(ce.Fun), "log.") || isLock(ce)
 		}
+	case *ast.DeferStmt:
+		return isLock(x.Call)
 	}
 	return false
 }
@@ -332,15 +502,21 @@ func (c *CPS) withRest(rest []ast.Stmt, k, ind string, body func(k string) (stri
 		return body(k)
 	}
 	name := c.fresh("k")
+	mv := c.mutInScope()
+	bs, err := c.binders(mv)
+	if err != nil {
+		return "", err
+	}
+	// the statement itself first (its declarations live in sub-scopes), then the rest of the block
+	b, err := body(name + " " + callArgs(mv))
+	if err != nil {
+		return "", err
+	}
 	r, err := c.blk(rest, k, ind+"  ")
 	if err != nil {
 		return "", err
 	}
-	b, err := body(name + " ()")
-	if err != nil {
-		return "", err
-	}
-	return "let " + name + " := (fun (_ : Unit) =>\n" + ind + "  " + r + ")\n" + ind + b, nil
+	return "let " + name + " := (fun " + bs + " =>\n" + ind + "  " + r + ")\n" + ind + b, nil
 }
 
 // sub renders a nested block in its own scope.
@@ -382,9 +558,34 @@ func (c *CPS) blk(stmts []ast.Stmt, k, ind string) (string, error) {
 		return c.withRest(rest, k, ind, func(k string) (string, error) { return c.sub(x.List, k, ind) })
 	case *ast.AssignStmt:
 		return c.assign(x, rest, k, ind)
+	case *ast.DeclStmt:
+		gd, ok := x.Decl.(*ast.GenDecl)
+		if !ok || gd.Tok != token.VAR || len(gd.Specs) != 1 {
+			return "", fmt.Errorf("unsupported declaration")
+		}
+		vs, ok := gd.Specs[0].(*ast.ValueSpec)
+		if !ok || len(vs.Names) != 1 || len(vs.Values) != 0 {
+			return "", fmt.Errorf("unsupported var declaration")
+		}
+		n := vs.Names[0].Name
+		t, ok := c.Types[n]
+		if !ok {
+			return "", fmt.Errorf("no Lean type configured for variable %s", n)
+		}
+		c.declare(n)
+		r, err := c.blk(rest, k, ind)
+		if err != nil {
+			return "", err
+		}
+		return "let " + leanName(n) + " : " + t + " := default\n" + ind + r, nil
 	case *ast.IfStmt:
 		if x.Init != nil {
-			return "", fmt.Errorf("if with init")
+			// `if init; cond {…}` = `{ init; if cond {…} }`
+			noInit := *x
+			noInit.Init = nil
+			return c.withRest(rest, k, ind, func(k string) (string, error) {
+				return c.sub([]ast.Stmt{x.Init, &noInit}, k, ind)
+			})
 		}
 		cond, err := c.ex(x.Cond)
 		if err != nil {
@@ -419,6 +620,7 @@ func (c *CPS) blk(stmts []ast.Stmt, k, ind string) (string, error) {
 			return "", err
 		}
 		return c.withRest(rest, k, ind, func(k string) (string, error) {
+			mv := c.mutInScope() // loop-carried state
 			c.push()
 			defer c.pop()
 			nx := c.fresh("next")
@@ -457,15 +659,30 @@ func (c *CPS) blk(stmts []ast.Stmt, k, ind string) (string, error) {
 			default:
 				return "", fmt.Errorf("range over unknown-typed %s", goKey(x.X))
 			}
-			c.next = append(c.next, nx)
+			if len(mv) == 0 {
+				c.next = append(c.next, nx)
+				c.brk = append(c.brk, k)
+				b, err := c.blk(x.Body.List, nx, ind+"  ")
+				c.next = c.next[:len(c.next)-1]
+				c.brk = c.brk[:len(c.brk)-1]
+				if err != nil {
+					return "", err
+				}
+				return "(forRange " + l + " (fun " + binder + " " + nx + " =>\n" + ind + "  " + pre + b + ")\n" + ind + "  (" + k + "))", nil
+			}
+			// stateful loop: the mutable variables in scope are threaded through the iterations
+			st := c.fresh("s")
+			c.next = append(c.next, nx+" "+tuple(mv))
 			c.brk = append(c.brk, k)
-			b, err := c.blk(x.Body.List, nx, ind+"  ")
+			b, err := c.blk(x.Body.List, nx+" "+tuple(mv), ind+"  ")
 			c.next = c.next[:len(c.next)-1]
 			c.brk = c.brk[:len(c.brk)-1]
 			if err != nil {
 				return "", err
 			}
-			return "(forRange " + l + " (fun " + binder + " " + nx + " =>\n" + ind + "  " + pre + b + ")\n" + ind + "  (" + k + "))", nil
+			unpack := "let " + tuple(mv) + " := " + st + "\n" + ind + "  "
+			return "(forRangeS " + l + " (fun " + binder + " " + st + " " + nx + " =>\n" + ind + "  " + unpack + pre + b + ")\n" + ind +
+				"  " + tuple(mv) + "\n" + ind + "  (fun " + st + " =>\n" + ind + "    let " + tuple(mv) + " := " + st + "\n" + ind + "    " + k + "))", nil
 		})
 	}
 	return "", fmt.Errorf("unsupported statement %T", s)
@@ -483,8 +700,8 @@ func (c *CPS) assign(x *ast.AssignStmt, rest []ast.Stmt, k, ind string) (string,
 		if x.Tok == token.DEFINE {
 			return id.Name, nil
 		}
-		if !c.declaredHere(id.Name) {
-			return "", fmt.Errorf("assignment to %s declared outside the current block (mutation across blocks is not translated)", id.Name)
+		if !c.declaredHere(id.Name) && !(c.mut[id.Name] && c.isLocal(id.Name)) {
+			return "", fmt.Errorf("assignment to %s which is not a local variable", id.Name)
 		}
 		return id.Name, nil
 	}
@@ -576,6 +793,46 @@ func (c *CPS) assign(x *ast.AssignStmt, rest []ast.Stmt, k, ind string) (string,
 		}
 		return out + r, nil
 	}
+	if len(x.Lhs) == 3 && len(x.Rhs) == 1 && (x.Tok == token.DEFINE || x.Tok == token.ASSIGN) {
+		call, ok := x.Rhs[0].(*ast.CallExpr)
+		if !ok {
+			return "", fmt.Errorf("unsupported three-result right-hand side")
+		}
+		c2, ok := c.Calls2[goKey(call.Fun)]
+		if !ok {
+			return "", fmt.Errorf("unsupported three-result call %s", goKey(call.Fun))
+		}
+		args, _ := c.args(call.Args)
+		on := c.fresh("opt")
+		out := "let " + on + " := " + c2.F(args) + "\n" + ind
+		for i, proj := range []string{".1", ".2"} {
+			n, err := lhsName(x.Lhs[i])
+			if err != nil {
+				return "", err
+			}
+			if n != "_" {
+				c.declare(n)
+				out += "let " + leanName(n) + " := (" + on + ".getD default)" + proj + "\n" + ind
+			}
+		}
+		e, err := lhsName(x.Lhs[2])
+		if err != nil {
+			return "", err
+		}
+		if e != "_" {
+			c.declare(e)
+			if c2.Kind == "ok" {
+				out += "let " + leanName(e) + " := " + on + ".isSome\n" + ind
+			} else {
+				out += "let " + leanName(e) + " : Option Unit := (if " + on + ".isSome then none else some ())\n" + ind
+			}
+		}
+		r, err := c.blk(rest, k, ind)
+		if err != nil {
+			return "", err
+		}
+		return out + r, nil
+	}
 	return "", fmt.Errorf("unsupported assignment shape")
 }
 
@@ -587,6 +844,13 @@ func (c *CPS) fn(fd *ast.FuncDecl) (string, error) {
 	}
 	c.locals = map[string]int{}
 	c.scope = nil
+	c.order = nil
+	c.n = 0
+	m, err := findMutables(fd)
+	if err != nil {
+		return "", err
+	}
+	c.mut = m
 	c.push()
 	defer c.pop()
 	l := fd.Body.List
